@@ -33,8 +33,12 @@ func (p *c16prop) Plan(tier string, seed int64) []core.Segment {
 		if t == "GSAP" || t == "OSAP" {
 			n = 1500
 		}
+		lg := int64(8)
+		if t == "GSAP" || t == "OSAP" {
+			lg = 2
+		}
 		segs = append(segs, core.Segment{Kind: "corpus:hist:" + t, N: 300}, core.Segment{Kind: "hist:" + t, N: n * m},
-			core.Segment{Kind: "mid:" + t, N: n / 4 * m})
+			core.Segment{Kind: "mid:" + t, N: n / 4 * m}, core.Segment{Kind: "large:" + t, N: lg * tierScale(tier, 10), Chunk: 1})
 	}
 	return segs
 }
@@ -202,7 +206,30 @@ func (p *c16prop) Gen(kind string, idx int64, seed int64, tier string) core.Case
 		w := HWeights{Write: 16, ReadFrom: 12, Parse: 26, ParseNTL: 10, ParseNil: 8, Shrink: 12, Reset: 2, ResetData: 6, Probe: 8, Faults: true}
 		var c gen.Cfg
 		var pc PCase
-		if class == "mid" {
+		if class == "large" {
+			// buffers beyond 64 KiB and the zero (default) configuration,
+			// refilled by readers that offer more than 64 KiB at once
+			c = gen.SmallCfg(r, typ, gen.Opts{})
+			c.BufferSize = []int{65000, 65536, 65537, 100000, 200000, 0, 0}[idx%7]
+			c.ShrinkSize = 0
+			c.WindowSize = []int{0, 32768, 65536, 1 << 20}[r.Intn(4)]
+			c.BlockSize = []int{0, 4096, 65536, 100000}[r.Intn(4)]
+			if typ == "GSAP" || typ == "OSAP" {
+				if c.BufferSize == 0 {
+					c.BufferSize = 1 << 17
+				}
+				if c.WindowSize == 0 || c.WindowSize > 1<<17 {
+					c.WindowSize = 1 << 17
+				}
+			}
+			_, stream := gen.Bytes(r, 300000+r.Intn(200000), c.Hint())
+			ops := []POp{{K: "write", A: 0, B: 25000}, {K: "parse"}, {K: "parse"}, {K: "parse"}, {K: "parse"}, {K: "parse"}, {K: "parse"}, {K: "parse"}, {K: "parse"}, {K: "shrink"},
+				{K: "readfrom", A: 1, B: 10}, {K: "parse"}, {K: "parse", A: 1}, {K: "shrink"}, {K: "readfrom", A: 0, B: 70000}, {K: "parse"}, {K: "readfrom", A: 1, B: 0}}
+			for i := 0; i < 12; i++ {
+				ops = append(ops, POp{K: "parse", A: r.Intn(2)})
+			}
+			pc = PCase{Cfg: c, Stream: stream, Ops: ops}
+		} else if class == "mid" {
 			// buffers beyond the first allocation sizes of the buffer
 			c = gen.SmallCfg(r, typ, gen.Opts{})
 			c.BufferSize = 1030 + r.Intn(3000)
